@@ -637,6 +637,12 @@ fn tvfs_path(shape: &str, namelen: u64, a: u64) -> String {
             let ext = a.to_string();
             pad(format!("data/{stem}{ext}"))
         }
+        // sibling directories whose names are prefixes of one another and where the longer name sorts FIRST
+        // ('-' and '.' are below '/'): d-y/, d.x.z/, d.x/, d/
+        "sep" => {
+            const DIRS: [&str; 4] = ["d", "d.x", "d-y", "d.x.z"];
+            format!("{}/{}", DIRS[((a / 2) % 4) as usize], pad(format!("f{a:05}")))
+        }
         other => panic!("driver: unknown tvfs shape {other}"),
     }
 }
